@@ -127,6 +127,7 @@ type Stats struct {
 	Premise     []string           `json:"premise_failed"`
 	Skipped     map[string]int64   `json:"skipped"`
 	Truncated   bool               `json:"budget_truncated"`
+	Watchdog    bool               `json:"watchdog_tripped,omitempty"`
 	WallS       float64            `json:"wall_s"`
 	EvHashes    []string           `json:"ev_hashes,omitempty"` // determinism self-test
 	distinctSet map[uint64]struct{}
